@@ -157,9 +157,16 @@ def gen(c, t, depth, nest=0):
         g.label("method")
         return ("mcall", gen(c, "str", depth - 1, nest + 1), "contains", [gen(c, "str", depth - 1, nest + 1)])
     if t == "str":
-        ch = g.weighted([(3, "leaf"), (4, "cat"), (2, "catint")])
+        ch = g.weighted([(3, "leaf"), (4, "cat"), (2, "catint"), (1, "rep-str-int"), (1, "rep-int-str")])
         if ch == "leaf":
             return leaf(c, t, nest)
+        if ch.startswith("rep"):
+            # string repetition with the count on either side (operands of DIFFERENT kinds around one operator)
+            g.label(ch)
+            cnt = ("call", V("Li"), [c.key(), I(g.int(0, 3))])
+            c.leaves += 1
+            st_ = gen(c, "str", depth - 1, nest + 1)
+            return ("bin", "*", st_, cnt) if ch == "rep-str-int" else ("bin", "*", cnt, st_)
         if ch == "cat":
             return ("bin", "+", gen(c, "str", depth - 1, nest + 1), gen(c, "str", depth - 1, nest + 1))
         return ("bin", "+", gen(c, "str", depth - 1, nest + 1), gen(c, "int", depth - 1, nest + 1))
